@@ -152,8 +152,9 @@ func (w *world) attempt(cs *Case, data [][]byte) *Result {
 	res := &Result{ID: cs.ID}
 	id := fmt.Sprint(cs.ID)
 	sc := &script{}
+	var peerConns int32
 	for i, rd := range cs.Rounds {
-		sc.rounds = append(sc.rounds, round{Data: data[i], Segs: rd.Segs, End: rd.End, Hold: rd.Hold, Pause: rd.Pause})
+		sc.rounds = append(sc.rounds, round{Data: data[i], Segs: rd.Segs, End: rd.End, Hold: rd.Hold, Pause: rd.Pause, Steps: rd.Steps, conns: &peerConns})
 	}
 	w.peer.scripts.Store(id, sc)
 	defer w.peer.scripts.Delete(id)
@@ -253,6 +254,9 @@ func (w *world) attempt(cs *Case, data [][]byte) *Result {
 		mu.Lock()
 		defer mu.Unlock()
 		res.Conns = int(atomic.LoadInt32(&sc.conns))
+		if cs.Kind != "h1" {
+			res.Conns = int(atomic.LoadInt32(&peerConns))
+		}
 		if err != nil {
 			res.Err = err.Error()
 		}
